@@ -45,6 +45,7 @@ type loopInfo struct {
 	wkeys     map[string]bool
 	wall      bool
 	variant   Term
+	entryOv   map[ssa.Value]Term // header phis on the entering edge (for pre(...) in invariants)
 	heldPre   Term // HELD at loop entry (lock discipline: iterations are lock-balanced)
 }
 
@@ -942,6 +943,7 @@ func (ft *FT) loopHead(li *loopInfo, st *State, guard Term, phiVals map[*ssa.Phi
 	}
 	li.preState = st.clone()
 	li.entryGd = guard
+	li.entryOv = ov
 	// invariant on entry
 	if li.con != nil {
 		ctx := ft.loopCtx(li, st, ov, st)
